@@ -32,13 +32,13 @@ ASSUMPTIONS = [
 ]
 
 DOMAIN = {
-    "Text": ["a", "b"],
+    "Text": ["a", "b", ""],  # clearing a text is a write like any other
     "Number": [1, 2.5, 1.0, 2.5],  # 1 and 1.0 are the same value
     "Switch": ["On", "Off"],
     "Light": ["Ok", "Busy"],
     "BLOB": ["78", "79"],  # hex
 }
-WIRE = {"Text": ["a", "b"], "Number": ["1", "2.5"], "Switch": ["On", "Off"]}
+WIRE = {"Text": ["a", "b", ""], "Number": ["1", "2.5"], "Switch": ["On", "Off"]}
 
 
 def py_value(kind, i):
@@ -187,8 +187,8 @@ def check_contract(case):
             returned = [None]
             try:
                 if t == "client":
-                    wire = WIRE[kind][op["val"] % 2]
-                    new = DOMAIN[kind][op["val"] % 2]
+                    wire = WIRE[kind][op["val"] % len(WIRE[kind])]
+                    new = DOMAIN[kind][op["val"] % len(WIRE[kind])]
                     part = getattr(one_parts, f"One{kind}")(name=f"E{e}", value=wire)
                     msg = getattr(M, f"New{kind}Vector")(device=f"DEV{inst}", name="V", children=(part,))
                     rig.run_sync(lambda: rig.router.process_message(msg, sender=None))
